@@ -18,8 +18,10 @@ import (
 	"go4.org/jsonconfig"
 	"perkeep.org/pkg/blobserver"
 	"perkeep.org/pkg/blobserver/diskpacked"
+	"perkeep.org/pkg/sorted"
 
 	"verif.local/harness/ev"
+	"verif.local/harness/inject"
 	"verif.local/harness/sto"
 )
 
@@ -114,6 +116,7 @@ type packedState struct {
 	packs             map[string][]byte // pack name -> content replacing the "before" content
 	extra             []string          // empty files to create
 	index             string            // "before" | "after"
+	variant           int               // how an in-flight remove is continued: 0 re-receive, 1 re-remove
 }
 
 type packedJob struct {
@@ -165,8 +168,29 @@ func (j *packedJob) prepare() bool {
 		j.fail("snapshot: %v", err)
 		return false
 	}
-	s, err = openPacked(live, j.idxKind, "idx", packMaxFileSize)
+	// The last op runs with the real index KV wrapped by a recorder: at the instant of every index
+	// mutation (before it is applied) the pack files are read as the OS sees them.  This gives the
+	// OBSERVED order of pack writes relative to the index write.
+	inner, err := sorted.NewKeyValue(jsonconfig.Obj(idxConf(j.idxKind, filepath.Join(live, "idx"))))
 	if err != nil {
+		j.fail("open index: %v", err)
+		return false
+	}
+	var atIdx []map[string][]byte
+	plan := inject.NewPlan()
+	plan.Yield = func(c inject.Call) {
+		if c.Write {
+			m, _, _ := readPacks(live)
+			atIdx = append(atIdx, m)
+		}
+	}
+	kvName := fmt.Sprintf("c03-%s-%s-%p", j.store, h.ID, j)
+	kvConf := inject.RegisterKV(kvName, inject.WrapKV("c03idx", inner, plan))
+	defer inject.UnregisterKV(kvName)
+	s, err = blobserver.CreateStorage("diskpacked", sto.NewLoader(), jsonconfig.Obj{
+		"path": live, "maxFileSize": float64(packMaxFileSize), "metaIndex": map[string]any(kvConf)})
+	if err != nil {
+		inner.Close()
 		j.fail("reopen: %v", err)
 		return false
 	}
@@ -175,6 +199,7 @@ func (j *packedJob) prepare() bool {
 	do(last)
 	lastErr := ck.LastErr()
 	closeStorage(s)
+	inner.Close()
 	r.Eval(ck.Evals)
 	if lastErr != nil {
 		j.fail("last op failed without a crash: %v", lastErr)
@@ -186,12 +211,22 @@ func (j *packedJob) prepare() bool {
 		return false
 	}
 	os.RemoveAll(live)
+	if len(atIdx) > 1 {
+		// the first mutation is the earliest instant at which the index can differ from "before"
+		r.Count("last_ops_with_several_index_mutations", 1)
+		atIdx = atIdx[:1]
+	}
+	r.Note("index_mutations_in_last_op", fmt.Sprint(len(atIdx)))
 
 	pb, _, err1 := readPacks(before)
 	pa, namesA, err2 := readPacks(after)
 	if err1 != nil || err2 != nil {
 		j.fail("read packs: %v %v", err1, err2)
 		return false
+	}
+	pm := pa // pack contents at the index-mutation instant
+	if len(atIdx) == 1 {
+		pm = atIdx[0]
 	}
 	var changed, added []string
 	for _, n := range namesA {
@@ -231,6 +266,17 @@ func (j *packedJob) prepare() bool {
 			j.fail("new pack %s is not empty", added[0])
 			return false
 		}
+		if len(atIdx) != 1 || !bytes.HasPrefix(pm[name], old) || !bytes.HasPrefix(cur, pm[name]) {
+			j.fail("cannot place the index mutation on the append timeline of %s (%d mutations)", name, len(atIdx))
+			return false
+		}
+		// bytes of the record that were in the pack when the index row was written
+		atIndex := len(pm[name]) - len(old)
+		if atIndex == L {
+			r.Note("observed_order", "receive: full record in the pack before the index row")
+		} else {
+			r.Note("observed_order", "receive: index row written with an incomplete record in the pack")
+		}
 		rec := cur[len(old):]
 		j.rolled = len(added) == 1
 		var cuts []int
@@ -239,7 +285,7 @@ func (j *packedJob) prepare() bool {
 				cuts = append(cuts, l)
 			}
 		} else {
-			set := map[int]bool{0: true, 1: true, 2: true, L - 1: true, L - 2: true}
+			set := map[int]bool{0: true, 1: true, 2: true, L - 1: true, L - 2: true, atIndex: true}
 			for d := -2; d <= 2; d++ {
 				set[H+d] = true
 			}
@@ -260,7 +306,7 @@ func (j *packedJob) prepare() bool {
 				kind, off = "none", "0"
 			case l < H:
 				kind = "torn-header"
-				off = map[bool]string{true: "mid"}[true]
+				off = "mid"
 				if l == 1 {
 					off = "first"
 				} else if l == H-1 {
@@ -279,12 +325,21 @@ func (j *packedJob) prepare() bool {
 					off = "last"
 				}
 			}
-			add(packedState{kind: kind, off: off, index: "before",
-				detail: fmt.Sprintf("%s = before + %d of %d record bytes (header %d bytes), index as before", name, l, L, H),
-				packs:  map[string][]byte{name: append(append([]byte(nil), old...), rec[:l]...)}})
+			content := map[string][]byte{name: append(append([]byte(nil), old...), rec[:l]...)}
+			if l <= atIndex {
+				add(packedState{kind: kind, off: off, index: "before", packs: content,
+					detail: fmt.Sprintf("%s = before + %d of %d record bytes (header %d bytes), index as before", name, l, L, H)})
+			}
+			if l >= atIndex {
+				// the index row was observed to be written at this point or earlier
+				add(packedState{kind: "indexed-" + kind, off: off, index: "after", packs: content,
+					detail: fmt.Sprintf("%s = before + %d of %d record bytes (header %d bytes), index HAS the row (observed: the row was written when %d record bytes were in the pack)", name, l, L, H, atIndex)})
+			}
 		}
 		full := map[string][]byte{name: cur}
-		if !j.rolled {
+		if atIndex < L {
+			add(packedState{kind: "full-indexed", off: "-", index: "after", packs: full, detail: name + " has the full record, index has the row (not acknowledged)"})
+		} else if !j.rolled {
 			add(packedState{kind: "full-noindex", off: "-", index: "before", packs: full, detail: name + " has the full record, index as before"})
 			add(packedState{kind: "full-indexed", off: "-", index: "after", packs: full, detail: name + " has the full record, index has the row (not acknowledged)"})
 		} else {
@@ -327,19 +382,71 @@ func (j *packedJob) prepare() bool {
 	if hp+L < len(old) || name != namesA[len(namesA)-1] {
 		r.Note("events", "remove-in-older-position")
 	}
-	// build(h, z, idx): h = header bytes rewritten (0..H), z = body bytes zeroed (0..size)
+	size := L - H
+	mid := pm[name]
+	if len(atIdx) != 1 || len(mid) != len(old) {
+		j.fail("cannot place the index mutation on the remove timeline of %s (%d mutations)", name, len(atIdx))
+		return false
+	}
+	// observed order of the three effects: what had been done to the pack when the index batch was committed
+	hBefore := bytes.Equal(mid[hp:hp+H], cur[hp:hp+H])
+	zBefore := bytes.Equal(mid[hp+H:hp+L], cur[hp+H:hp+L])
+	if !hBefore && !bytes.Equal(mid[hp:hp+H], old[hp:hp+H]) || !zBefore && !bytes.Equal(mid[hp+H:hp+L], old[hp+H:hp+L]) {
+		j.fail("pack %s was caught mid-rewrite at the index mutation", name)
+		return false
+	}
+	if bytes.Equal(old[hp+H:hp+L], cur[hp+H:hp+L]) {
+		zBefore = hBefore // an all-zero (or empty) body shows nothing; assume it follows the header
+	}
+	var seq []string // header rewrite is assumed to precede the zeroing inside one group (dele.go)
+	if hBefore {
+		seq = append(seq, "H")
+	}
+	if zBefore && size > 0 {
+		seq = append(seq, "Z")
+	}
+	seq = append(seq, "I")
+	if !hBefore {
+		seq = append(seq, "H")
+	}
+	if !zBefore && size > 0 {
+		seq = append(seq, "Z")
+	}
+	r.Note("observed_order", "remove: "+strings.Join(seq, ","))
+	// build(h, z): h = header bytes rewritten (0..H), z = body bytes zeroed (0..size)
 	build := func(h, z int) map[string][]byte {
 		c := append([]byte(nil), old...)
 		copy(c[hp:hp+h], cur[hp:hp+h])
 		copy(c[hp+H:hp+H+z], cur[hp+H:hp+H+z])
 		return map[string][]byte{name: c}
 	}
-	size := L - H
-	st := func(kind, off string, h, z int, idx string) {
-		add(packedState{kind: kind, off: off, index: idx, packs: build(h, z),
-			detail: fmt.Sprintf("%s: %d of %d header bytes rewritten, %d of %d body bytes zeroed, index row %s", name, h, H, z, size, map[string]string{"before": "kept", "after": "deleted"}[idx])})
+	// progress of an effect: 0 none, 1 partial, 2 done
+	prog := func(done, total int) int {
+		switch {
+		case done == 0 && total > 0:
+			return 0
+		case done < total:
+			return 1
+		}
+		return 2
 	}
-	// order performed by the code: header rewrite, zero/punch body, index batch
+	st := func(kind, off string, h, z int, idx string) {
+		p := map[string]int{"H": prog(h, H), "Z": prog(z, size), "I": map[string]int{"before": 0, "after": 2}[idx]}
+		consistent, open := true, false
+		for _, e := range seq {
+			if open && p[e] != 0 {
+				consistent = false
+			}
+			if p[e] != 2 {
+				open = true
+			}
+		}
+		if !consistent {
+			kind = "pl-" + kind // only a power loss (nothing on this path is fsynced) produces this subset
+		}
+		add(packedState{kind: kind, off: off, index: idx, packs: build(h, z),
+			detail: fmt.Sprintf("%s: %d of %d header bytes rewritten, %d of %d body bytes zeroed, index row %s (observed order of effects: %s)", name, h, H, z, size, map[string]string{"before": "kept", "after": "deleted"}[idx], strings.Join(seq, ","))})
+	}
 	st("remove-none", "-", 0, 0, "before")
 	for i, h := range []int{4, H / 2, H - 3} {
 		st("remove-header-torn", []string{"in-hashname", "mid", "late"}[i], h, 0, "before")
@@ -356,15 +463,25 @@ func (j *packedJob) prepare() bool {
 		st("remove-header-zeroed", "-", H, size, "before")
 	}
 	st("remove-complete", "-", H, size, "after")
-	// power loss: nothing is fsynced on the remove path, any subset may reach the disk
-	st("pl-remove-index-only", "-", 0, 0, "after")
+	st("remove-index-only", "-", 0, 0, "after")
 	if size > 0 {
-		st("pl-remove-header-index", "-", H, 0, "after")
-		st("pl-remove-zeroed-only", "-", 0, size, "before")
-		st("pl-remove-zeroed-index", "-", 0, size, "after")
+		st("remove-header-index", "-", H, 0, "after")
+		st("remove-zeroed-only", "-", 0, size, "before")
+		st("remove-zeroed-index", "-", 0, size, "after")
 		if size > 2 {
-			st("pl-remove-zero-partial-only", "mid", 0, size/2, "before")
+			st("remove-zero-partial-only", "mid", 0, size/2, "before")
 		}
+	}
+	if !hBefore {
+		for i, h := range []int{4, H / 2, H - 3} {
+			st("remove-index-header-torn", []string{"in-hashname", "mid", "late"}[i], h, 0, "after")
+		}
+	}
+	// every remove state is continued both ways
+	for _, st := range append([]packedState(nil), j.states...) {
+		st.variant = 1
+		st.off += "/reremove"
+		add(st)
 	}
 	return true
 }
@@ -429,7 +546,7 @@ func (j *packedJob) runCase(i int) {
 		}
 		before := countPacks(dir)
 		ck := o.checker(s, "diskpacked")
-		o.continueHistory(ck, i)
+		o.continueHistory(ck, st.variant)
 		ck.Audit(o.rng, true)
 		o.done(ck)
 		o.streamCheck(s, "diskpacked")
